@@ -544,14 +544,7 @@ func RunW2(opt *W2Opt, plan, sched *simrt.Source, trace bool) *RunOut {
 		ct.rounds = append(ct.rounds, finalRound)
 	}
 	w.Rounds = ct.rounds
-	for _, c := range sc.Calls {
-		for id, pl := range c.Plan {
-			rd := sc.Rule(id)
-			if pl.Fire >= 0 && pl.Fire < len(rd.Secs) && (rd.Secs[pl.Fire].Kind == SecUnb || rd.Secs[pl.Fire].Kind == SecUnbCont) {
-				cfg.StepCap = 5000000
-			}
-		}
-	}
+	limitEndlessLoops(sc, &cfg)
 	o.Describe = func() []string {
 		out := []string{fmt.Sprintf("config: strategy=%d stick=%d‰ shuffleMaps=%v psites=%d‰ stall=%d; pool min=%d max=%d execModel=%d", cfg.Strategy, cfg.StickPermil, cfg.ShuffleMaps, cfg.PProb, cfg.StallSteps, w.Min, w.Max, em)}
 		for _, r := range rules {
